@@ -4,6 +4,7 @@ import XPathV.Model.Cache
 import XPathV.Spec.Eval
 import XPathV.Spec.Grammar
 import XPathV.Spec.FullGrammar
+import XPathV.Spec.FullBridge
 /-!
 # Line-protocol driver (`xdriver`)
 
@@ -14,7 +15,7 @@ the implementation and the **specification** on each, and prints one line per ca
 
 Core-only (no Mathlib, no `Lean.Data.Json`) so that it links as a small native executable.
 -/
-open XPathV XPathV.Model
+open XPathV XPathV.Model XPathV.Bridge
 
 def hexVal (c : Char) : Nat :=
   if '0' ≤ c && c ≤ '9' then c.toNat - 48
@@ -173,64 +174,12 @@ def modelEval (rc : RunCfg) (c : Case) (text : List Char) (ctx : Ref) : String :
 def parseOnly (c : Case) (text : List Char) : Except PErr Ast :=
   parse (fuelFor text) (defaultCfg c.ns) text
 
-/-- the scanner's token stream as the full reference grammar's tokens (`none` on a scanner error) -/
-def tokVs (text : List Char) : Option (List Spec.Full.TokV) :=
-  let conv (s : Scan) : Option Spec.Full.TokV :=
-    match s.typ with
-    | .name => some (.name s.pfx s.name s.canBeFunc)
-    | .axe => some (.axis s.name)
-    | .string => some (.str s.strval)
-    | .number => some (.num s.numlex)
-    | .slash => some .slash | .slashslash => some .slashslash | .at => some .at | .dot => some .dot
-    | .dotdot => some .dotdot | .lparen => some .lparen | .rparen => some .rparen
-    | .lbracket => some .lbracket | .rbracket => some .rbracket | .comma => some .comma
-    | .star => some .star | .union => some .union | .plus => some .plus | .minus => some .minus
-    | .eq => some .eq | .ne => some .ne | .lt => some .lt | .le => some .le | .gt => some .gt | .ge => some .ge
-    | .dollar => some .dollar
-    | .bang => none
-    | .eof => none
-  let rec go (f : Nat) (s : Scan) (acc : List Spec.Full.TokV) : Option (List Spec.Full.TokV) :=
-    match f with
-    | 0 => none
-    | f+1 =>
-      if s.typ == .eof then some acc.reverse
-      else match conv s, s.nextItem with
-        | some t, .ok s' => go f s' (t :: acc)
-        | _, _ => none
-  match Scan.init text with
-  | .ok s => go (text.length + 2) s []
-  | .error _ => none
-
 /-- the tree the *full reference grammar* (written from the Recommendation alone, `Spec/FullGrammar.lean`)
 assigns to the text: `none` when the scanner fails or the text is not an expression of the grammar -/
 def fullRefAst (c : Case) (text : List Char) : Option Ast :=
   match tokVs text with
   | some ts => Spec.Full.refParseFull c.ns ts
   | none => none
-
-/-- representation details on which the package's tree and the reference grammar's tree may differ without
-any difference in meaning: the slash string kept in the root node (`/` or `//`), parentheses around a literal, and the `prop` field of a
-`node()` test (the package sets it for an explicit `node()` and leaves it empty in the abbreviations `.`,
-`..`, `//`) -/
-def normConv : Ast → Ast
-  | .root _ => .root "/"
-  | .axis a i =>
-    -- (a processing-instruction test: the package keeps the principal node type of the axis — and therefore selects
-    -- *elements* of that name, an observation recorded in DESIGN §11.5 — the grammar has no node type for it)
-    let a := if a.prop == "processing-instruction" then { a with typeTest := .all } else a
-    .axis { a with prop := if a.typeTest == .all && a.prop != "processing-instruction" then "" else a.prop } (normConv i)
-  | .filter i c => .filter (normConv i) (normConv c)
-  | .call n p args => .call n p (normConv args)
-  | .acons h t => .acons (normConv h) (normConv t)
-  | .oper o l r => .oper o (normConv l) (normConv r)
-  | .group (.num l) => .num l          -- the package drops the parentheses around a literal
-  | .group (.str t) => .str t
-  | .group x =>
-    match normConv x with
-    | .num l => .num l
-    | .str t => .str t
-    | y => .group y
-  | a => a
 
 /-- model parser vs full reference grammar on one text -/
 def fullCompare (c : Case) (text : List Char) : String :=
